@@ -244,3 +244,9 @@ impl Sched {
         g.log.push((actor.to_string(), event.to_string()));
     }
 }
+
+impl Sched {
+    pub fn raw_log(&self) -> Vec<(String, String)> {
+        self.m.lock().unwrap().log.clone()
+    }
+}
